@@ -167,10 +167,17 @@ def check(ctx):
             else:
                 o.witness('top')
         elif role[0] == 'store':
-            if not (s.func is not None and s.func.name == '__init__' and isinstance(s.stmt.value, ast.List) and not s.stmt.value.elts):
+            v_ = s.stmt.value if isinstance(s.stmt, ast.Assign) else None
+            copied = v_ is not None and any(isinstance(x, ast.Attribute) and x.attr == '_group_pathing' and isinstance(x.ctx, ast.Load) for x in ast.walk(v_)) and \
+                (isinstance(v_, ast.Call) and (ast.unparse(v_.func) in ('list', 'copy.copy') or call_attr(v_) == 'copy') or isinstance(v_, ast.Subscript))
+            if copied:
+                o.witness('handed-on')      # a re-packed part starts with a copy of the stack of what it was made from (C08.12)
+            elif not (s.func is not None and s.func.name == '__init__' and isinstance(s.stmt.value, ast.List) and not s.stmt.value.elts):
                 bad = 'the group-path stack is re-bound'
         elif role[0] in ('iter', 'test'):
             pass
+        elif role[0] == 'arg' and role[1] in ('list', 'tuple', 'len', 'copy.copy'):
+            pass        # read, or copied for a re-packed part (C08.12)
         elif role[0] == 'alias':
             pass        # a local name for the stack: its uses are reported as uses of the stack (sa/inventory.py)
         else:
@@ -202,6 +209,32 @@ def check(ctx):
                    file=c.mod.path, line=fn.lineno)
         else:
             o.witness('exit-through-top')
+    # ---- C08.12 a device that re-packs parts hands the group-path stack on ------------------------------------------------
+    o12 = Ob('C08.12', 'K2', 'a device that sends on a part object other than the one it received -- a new Batch made of received parts, or the parts taken out of a received '
+                             'Batch -- gives it the group-path stack of what it was made from: otherwise such a device inside a shared group produces parts that '
+                             'cannot leave the group through the path they entered by (GroupOutput finds no path on them)')
+    obs.append(o12)
+    for c in dv.device_classes(P):
+        own = [f for _, _, f in c.all_functions()] if hasattr(c, 'all_functions') else []
+        wraps = [x for f in own for x in ast.walk(f) if isinstance(x, ast.Call) and isinstance(x.func, ast.Name) and P.has_cls(x.func.id)
+                 and any(k.name == 'Part' for k in P.cls(x.func.id).mro)]
+        unwraps = [x for f in own for x in ast.walk(f) if isinstance(x, ast.Call) and isinstance(x.func, ast.Attribute) and x.func.attr in ('pop', 'popleft', 'remove')
+                   and isinstance(x.func.value, ast.Attribute) and x.func.value.attr == 'parts']
+        if not wraps and not unwraps:
+            continue
+        hands_on = any(isinstance(x, ast.Attribute) and x.attr == '_group_pathing' for f in own for x in ast.walk(f))
+        for kind, sites, what in (('wrap', wraps, 'a new batch is made of received parts and sent on without the group-path stack of those parts'),
+                                  ('unwrap', unwraps, 'parts are taken out of a received batch and sent on without the group-path stack of that batch')):
+            if not sites:
+                continue
+            o12.count()
+            if hands_on:
+                o12.witness((c.name, kind))
+            else:
+                o12.fail(P, c.name, kind, f'{what}: inside a shared group they cannot leave through the path they entered by (GroupOutput raises RuntimeError)',
+                         file=c.mod.path, line=sites[0].lineno)
+    o12.require(o12.instances >= 1, 'no device that re-packs parts (PartBatcher) was found')
+
     # C08.11: the hop is in the history before the receive bookkeeping runs
     o11 = Ob('C08.11', 'K2', 'a device that stores a part adds itself to the routing history before its receive bookkeeping (record, receive callbacks, a batcher taking the first '
                              'members out of an input batch) runs: what happens at reception sees, and inherits, a history that already contains the device')
@@ -372,6 +405,17 @@ def check(ctx):
             if 'touched' in st.flags and int(0) == 0 and c.name == 'GroupPath':
                 o.fail(P, f'{c.name}.give_part', 'if self._block_input: return False', 'a blocked group path touches the part before refusing it', file=c.mod.path,
                        line=P.method(c, 'give_part')[1].lineno, path=res.path_lines(g.exitF, st))
+
+    # the block is the user's: only the documented setter (and the constructor) writes it
+    for s_ in inv.attr_stores(P, '_block_input'):
+        o.count()
+        fn_ = s_.func
+        is_setter = fn_ is not None and any(ast.unparse(d).endswith('.setter') for d in fn_.decorator_list)
+        if fn_ is not None and (fn_.name == '__init__' or is_setter or fn_.name in inv.covered(P, {'__init__'})):
+            o.witness(('block-writer', fn_.name))
+            continue
+        o.fail(P, s_.ctx, s_.stmt, 'the input block is written outside its setter and the constructor: a block the model set (before the start, or through a schedule) is '
+               'undone behind its back and parts enter a device that is configured as blocked', file=s_.mod.path, line=s_.line)
 
     # ---- C08.5 candidate order ------------------------------------------------------------------------------------
     o = Ob('C08.5', 'K6', 'downstream candidates are tried in ascending waiting-since order (None last), every hand-over loop iterates that order '
